@@ -155,6 +155,10 @@ theorem daysIn_le (y m : Nat) : daysIn y m ≤ 31 := by
   unfold daysIn; repeat' split
   all_goals omega
 
+theorem daysIn_ge (y m : Nat) : 28 ≤ daysIn y m := by
+  unfold daysIn; repeat' split
+  all_goals omega
+
 theorem norm_ok (y m d : Nat) (h1 : 1 ≤ m) (h2 : m ≤ 12) :
     normDate y m d = (y, m, d) ↔ d ≤ daysIn y m := by
   unfold normDate
@@ -430,5 +434,61 @@ theorem parse_append (c : Civil) (hv : c.valid = true) (hy : c.year ≤ 9999) :
     pad2_parse c.day (by omega), pad2_parse c.hour (by omega), pad2_parse c.min (by omega),
     pad2_parse c.sec (by omega), pad4_parse c.year (by omega)]
   omega
+
+/-! ### every instant of years 0..9999 has valid civil fields -/
+
+theorem month_step (y m : Nat) (h1 : 1 ≤ m) (h2 : m < 12) :
+    daysBeforeMonth y (m + 1) = daysBeforeMonth y m + daysIn y m := by
+  have hm : m = 1 ∨ m = 2 ∨ m = 3 ∨ m = 4 ∨ m = 5 ∨ m = 6 ∨ m = 7 ∨ m = 8 ∨ m = 9 ∨ m = 10 ∨ m = 11 := by omega
+  rcases hm with rfl | rfl | rfl | rfl | rfl | rfl | rfl | rfl | rfl | rfl | rfl <;>
+    cases hl : isLeap y <;> simp [daysBeforeMonth, cumDays, daysIn, hl]
+
+theorem year_step (y : Nat) : daysBeforeYear (y + 1) = daysBeforeYear y + daysBeforeMonth y 12 + 31 := by
+  have h := daysBefore_eq (y + 1)
+  rw [daysBefore, daysBefore_eq, yearLen_eq] at h
+  rw [← h]
+  by_cases hl : isLeap y = true
+  · have := (isLeap_iff y).1 hl
+    simp [daysBeforeMonth, cumDays, hl, this]
+  · have hl' : isLeap y = false := by simpa using hl
+    have : ¬ (y % 4 = 0 ∧ (y % 100 ≠ 0 ∨ y % 400 = 0)) := fun hh => hl ((isLeap_iff y).2 hh)
+    simp [daysBeforeMonth, cumDays, hl', this]
+
+theorem civil_of_day (N : Nat) : ∃ y m d, 1 ≤ m ∧ m ≤ 12 ∧ 1 ≤ d ∧ d ≤ daysIn y m ∧ dayNumber y m d = N := by
+  induction N with
+  | zero => exact ⟨0, 1, 1, by decide, by decide, by decide, by decide, by decide⟩
+  | succ N ih =>
+    obtain ⟨y, m, d, h1, h2, h3, h4, h5⟩ := ih
+    by_cases hd : d < daysIn y m
+    · exact ⟨y, m, d + 1, h1, h2, by omega, by omega, by unfold dayNumber at h5 ⊢; omega⟩
+    · have hde : d = daysIn y m := by omega
+      by_cases hm : m < 12
+      · refine ⟨y, m + 1, 1, by omega, by omega, by omega, ?_, ?_⟩
+        · have := daysIn_ge (y) (m + 1); omega
+        · unfold dayNumber at h5 ⊢
+          rw [month_step y m h1 hm]; omega
+      · have hm12 : m = 12 := by omega
+        subst hm12
+        refine ⟨y + 1, 1, 1, by omega, by omega, by omega, (by have := daysIn_ge (y + 1) 1; omega), ?_⟩
+        unfold dayNumber at h5 ⊢
+        rw [year_step]
+        have : daysIn y 12 = 31 := rfl
+        have hb : daysBeforeMonth (y + 1) 1 = 0 := by simp [daysBeforeMonth, cumDays]
+        omega
+
+theorem civil_of_unix (n : Int) (h1 : -62167219200 ≤ n) (h2 : n ≤ 253402300799) :
+    ∃ c : Civil, c.valid = true ∧ c.year ≤ 9999 ∧ civilUnix c = n := by
+  obtain ⟨t, ht⟩ : ∃ t : Nat, (t : Int) = n + 62167219200 := ⟨(n + 62167219200).toNat, by omega⟩
+  obtain ⟨y, m, d, a1, a2, a3, a4, a5⟩ := civil_of_day (t / 86400)
+  refine ⟨⟨y, m, d, t % 86400 / 3600, t % 86400 % 3600 / 60, t % 86400 % 60⟩, ?_, ?_, ?_⟩
+  · simp only [Civil.valid, Bool.and_eq_true, decide_eq_true_eq]
+    omega
+  · show y ≤ 9999
+    have hN : t / 86400 ≤ 3652424 := by omega
+    have hge : daysBeforeYear y ≤ dayNumber y m d := by unfold dayNumber; omega
+    have e : daysBeforeYear y = 365 * y + (y + 3) / 4 - (y + 99) / 100 + (y + 399) / 400 := rfl
+    omega
+  · simp only [civilUnix, a5, unixEpochDay]
+    omega
 
 end Fh.Proofs.HttpDate
